@@ -468,6 +468,14 @@ func knownJSON(mode string, flags []string, data []byte, r jsonRef, w want) stri
 	if windowed(mode) && r.p+1 > 12288 && knownClass("C17/cr-window") && hasLoneCR(data[:min(r.p, len(data))]) {
 		return "C17/cr-window"
 	}
+	if piped(mode) && len(data) >= 16384 && knownClass("C17/cr-window") {
+		// on a pipe the consumed part of the buffer is dropped (counting LF
+		// only) after any document / event once 16 KiB have been read, and the
+		// decoder reads ahead: that may happen long before byte 12288
+		if stream && hasLoneCR(data[:min(r.p, len(data))]) || !stream && r.nDocs >= 1 && hasLoneCR(data[:min(r.endLast, len(data))]) {
+			return "C17/cr-window"
+		}
+	}
 	if piped(mode) && !r.eof && data[r.p] >= 0xC0 && r.p+utf8.UTFMax > 512 && knownClass("C17/pipe-partial-char") {
 		// the decoder stops at the first byte of a multi-byte character; the
 		// rest of it is in the window only if it arrived with the same read
